@@ -37,7 +37,6 @@ Definition visit_name (id : str) (s : dstate) : option dstate :=
 
 (* topsort.rs:8 get_dependencies_from_type *)
 Fixpoint deps_type (tp : rtype) (s : dstate) : option dstate :=
-  obind
     (match tp with
      | RGeneric id params =>
        match types id with
@@ -53,10 +52,9 @@ Fixpoint deps_type (tp : rtype) (s : dstate) : option dstate :=
      | RSimple id => visit_name id s
      | RHashMap k v => obind (deps_type k s) (deps_type v)
      | ROption x => deps_type x s
-     | RVec x => deps_type x s
-     | _ => Some s                     (* Array, Slice and the primitives: `_ => {}` *)
-     end)
-    (fun s' => Some (seen_remove (rtype_id tp) s')).
+     | RVec x | RArray x _ | RSlice x => deps_type x s
+     | _ => Some s                     (* the primitives: `_ => {}` *)
+     end).
 
 Definition deps_fields (fs : list rtype) (s : dstate) : option dstate :=
   fold_left (fun acc t => obind acc (deps_type t)) fs (Some s).
